@@ -26,7 +26,12 @@ impl Instant {
         Instant::now().duration_since(*self)
     }
     pub fn checked_add(&self, d: Duration) -> Option<Instant> {
-        self.0.checked_add(dur_ns(d)).map(Instant)
+        // (the simulated clock itself counts nanoseconds in a u64 and saturates beyond 584 years)
+        if representable(self.0, d) {
+            Some(Instant(self.0.saturating_add(dur_ns(d))))
+        } else {
+            None
+        }
     }
     pub fn checked_sub(&self, d: Duration) -> Option<Instant> {
         self.0.checked_sub(dur_ns(d)).map(Instant)
@@ -36,10 +41,16 @@ impl Instant {
     }
 }
 
+/// std's `Instant` (a timespec on Linux) cannot represent more than i64::MAX seconds: adding a
+/// larger duration is `None` for `checked_add` and a panic for `+`, exactly as in std.
+fn representable(now: u64, d: Duration) -> bool {
+    d.as_secs() <= (i64::MAX as u64).saturating_sub(now / 1_000_000_000 + 1)
+}
+
 impl Add<Duration> for Instant {
     type Output = Instant;
     fn add(self, d: Duration) -> Instant {
-        Instant(self.0.saturating_add(dur_ns(d)))
+        self.checked_add(d).expect("overflow when adding duration to instant")
     }
 }
 impl Sub<Duration> for Instant {
